@@ -32,11 +32,33 @@ def tie_applicable(p, exact):
     return exact and not (base.has_kind(spec, ["Average", "Deviate"]) and any(o[0] == "fillnp" for o in p["ops"]))
 
 
+def variant(spec):
+    """the same tree with every constant of every quantity changed (names recomputed)"""
+    s2 = copy.deepcopy(spec)
+
+    def chg(e):
+        if e[0] == "c":
+            return ["c", float(e[1]) * 2.0 + 1.0]
+        return [e[0]] + [chg(x) if isinstance(x, list) else x for x in e[1:]]
+    for s_ in gen.walk(s2):
+        if "q" in s_:
+            q = s_["q"]
+            q["e"] = chg(q["e"])
+            if not any(isinstance(w, (list, tuple)) and w[0] == "named" for w in q.get("wops", [])):
+                q["name"] = c17.default_name({"form": q["form"], "e": q["e"], "fname": q.get("fname", "myfn")})
+    return s2
+
+
 def gen_one(r, i, tier):
     dyadic = True
     g = gen.G(r, dyadic=dyadic, max_depth=3 if tier == "quick" else 4, vecbags=False)
     spec = g.spec(kind=r.choice(gen.NODES + gen.LEAVES))
+    if i % 12 == 11:
+        spec = {"k": "Count"}        # an isolated Count: vectorised through Container.fillnumpy
     c17.decorate(r, spec, "dict")
+    for s_ in gen.walk(spec):
+        if "q" in s_ and s_["q"].get("form") == "def" and r.random() < 0.6:
+            s_["q"]["form"] = "defg"          # a def that reads its constants from module globals
     try:
         hgm.build(spec)
     except Exception:  # noqa: BLE001
@@ -71,6 +93,11 @@ def gen_one(r, i, tier):
         t = push(("jsonrt", a)); state = "reloaded"
     cl = push(("clone", t))
     pairs = []                       # (op index on the original, op index on the clone, what)
+    if any("q" in s_ and s_["q"].get("form") == "defg" for s_ in gen.walk(spec)):
+        # another aggregator of the same shape whose functions read DIFFERENT values from globals of
+        # the same names is pickled and unpickled before the clone is used
+        v = push(("new", variant(spec))); fills(v, 1)
+        push(("clone", v))
 
     def both(mk, what):
         ops.append(mk(t)); i1 = len(ops) - 1
@@ -92,7 +119,7 @@ def gen_one(r, i, tier):
     ops.append(("clone", cl)); cl2 = pool[0]; pool[0] += 1
     ops.append(("eq", cl, cl2, TOL)); eq2 = len(ops) - 1
     # the vectorised batch comes last: it leaves empty bins behind, so only pruned snapshots after it
-    if state != "reloaded" and any("q" in s_ for s_ in gen.walk(spec)):
+    if state != "reloaded" and (any("q" in s_ for s_ in gen.walk(spec)) or spec["k"] == "Count"):
         # (a reloaded container has no functions: fill.numpy raises even for an empty batch)
         rows = [copy.deepcopy(r.choice(recs)) for _ in range(r.randint(0, 5))]
         w = r.choice([1.0, 2.0, [r.choice([1.0, 2.0, 0.5]) for _ in rows]])     # (no zero weights: they leave empty bins)
